@@ -1,7 +1,7 @@
 """Units transform / iterate: the real Transformation / Iterate objects against Transform.v / Iterate.v."""
 import sys
 
-sys.path.insert(0, "/repo")
+sys.path.insert(0, __import__("os").environ.get("VERIF_REPO", "/repo"))
 import numpy as np
 
 from ..common import cq, cb, cz, clist, cvec, cmat, cbnds
